@@ -170,7 +170,7 @@ def gen_expr_unit(rng):
             "input": "\n".join(jm.dumps(v) for v in inputs).encode("utf-8"), "policy": rng.choice(POLICIES)}
 
 
-EXEC_EXPRS = ['(exec "true")', '(exec "false")', '(exec "no-such-program-xyz")', '(exec "echo" .s)', '(exec "cat" .s)', '(exec "cat" .big)', '(exec 5)', '(exec)',
+EXEC_EXPRS = ['(exec "true")', '(exec "false")', '(exec "no-such-program-xyz")', '(exec "echo" .s)', '(exec "cat" .s)', '(exec "cat" .big)', '(exec 5)',
               '(exec "sh" "-c" "exit 3")', '(exec "sh" "-c" "kill -9 $$")', '(exec "sh" "-c" "printf \\"\\\\377\\\\376\\"")',
               # children that fill one pipe while the other is still open, in both orders, and both at once
               '(exec "sh" "-c" "head -c 200000 /dev/zero >&2; echo done")', '(exec "sh" "-c" "head -c 200000 /dev/zero; echo done >&2")',
@@ -228,8 +228,8 @@ def gen_sortlist_unit(rng):
     arr = [rng.choice(pool) for _ in range(n)]
     src = rng.choice((".arr", ".arr", "(map .arr (* . 1e300 1e300))", "(map .arr (- (* . 1e300 1e300) (* . 1e300 1e300)))", "(map .arr (/ . 0.0))",
                       "(map .arr (? (> . 0) (- (* 1e300 1e300) (* 1e300 1e300)) .))", "(map .arr (% (* . 1e300 1e300) 7))"))
-    fns = ["(sort %s)", "(sort_unique %s)", "(sort_by %s .)", "(sort_by %s (- .))", "(order %s)", "(max %s)", "(min %s)", "(sort_by_values (fold %s {} (put .so_far (stringify .index) .value)))",
-           "(group_by %s (stringify .))", "(first (sort %s))", "(sum %s)", "(avg %s)", "(join (sort %s) \",\")"]
+    fns = ["(sort %s)", "(sort_unique %s)", "(sort_by %s .)", "(sort_by %s (- .))", "(order %s)", "(reverese (sort %s))", "(last (sort %s))", "(sort_by_values (fold %s {} (put .so_far (stringify .index) .value)))",
+           "(group_by %s (stringify .))", "(first (sort %s))", "(sum %s)", "(join (sort %s) \",\")"]
     exprs = [f % src for f in rng.sample(fns, 4)]
     return {"kind": "expr", "pos": rng.choice(("select", "select", "sort", "filter")), "exprs": exprs, "funcs": ["sortlist"], "sortlist": True,
             "input": jm.dumps({"arr": arr}).encode("utf-8"), "policy": rng.choice(POLICIES)}
